@@ -27,6 +27,10 @@ type outcome struct {
 
 // Concurrency follows the processors actually available (affinity included): each race runs
 // three to five solver processes, and oversubscribing a small machine turns slow into "unknown".
+var crossCheck bool // thorough tier
+var crossMu sync.Mutex
+var crossStats = map[string]int{}
+
 var solverSem = make(chan struct{}, scaled(10)) // bounds concurrently running solver races
 var caseSem = make(chan struct{}, scaled(12))
 
@@ -75,6 +79,35 @@ func runQuery(L *Loaded, asserts []*smt.Term, gets []*smt.Term, timeout, seed in
 	}
 	solverSem <- struct{}{}
 	res, err := smt.SolveWithAbstraction(sc, abs, weak, light, len(gets), timeout, seed, os.Getenv("GOVC_SOLVER"))
+	if err == nil && crossCheck && res.Verdict == smt.Unsat {
+		// thorough tier: every back end runs the full script to completion (bounded); a second
+		// independent "unsat" is recorded, a "sat" against the winner's "unsat" is a broken check
+		t := timeout / 4
+		if t < 10 {
+			t = 10
+		}
+		agree, sat := 0, 0
+		for _, r := range smt.SolveAll(sc, 0, t, seed) {
+			switch r.Verdict {
+			case smt.Unsat:
+				agree++
+			case smt.Sat:
+				sat++
+			}
+		}
+		crossMu.Lock()
+		crossStats["queries"]++
+		if agree >= 2 {
+			crossStats["confirmed_by_two_or_more_solvers"]++
+		}
+		if agree >= 3 {
+			crossStats["confirmed_by_all_three"]++
+		}
+		if sat > 0 {
+			crossStats["disagreements"]++
+		}
+		crossMu.Unlock()
+	}
 	<-solverSem
 	if err != nil {
 		return outcome{verdict: smt.Unknown, raw: err.Error(), solver: "error"}
